@@ -69,7 +69,7 @@ def probe (s : HalfConn.State Float) : String :=
   s!"ps={ps.baseId},{ps.nextId},{ps.alloc},{ps.maxAlloc},{ps.totalSize},{ps.queue.length},{ps.win.length} pb={(ps.queue.map (·.data.length)).sum},{(ps.win.map (·.packet.data.length)).sum},{(ps.win.map (·.allocSize)).sum} pend={s.pending.length} rs={s.resend.size} | " ++
   s!"fq={fq.winBase},{fq.logBase},{fq.logNext},{fq.frames.length},{b2n fq.rateLimited},{fq.intervals.length},{b2n fq.ackData.isSome} | " ++
   s!"pr={pr.baseId},{pr.endId},{pr.alloc},{pr.maxAlloc},{asmHeld},{dataHeld},{hexNat ready},{b2n pr.windowReady} aq={s.aq.baseId},{s.aq.entries.length} | " ++
-  s!"rate={r.sendRate},{r.maxSendRate},{tag},{tcp},{fmtOptN r.nofeedbackExp},{b2n r.nofeedbackIdle},{fmtOptN (r.rttS.map (·.toBits.toNat))},{fmtOptN r.rttMs},{fmtOptN r.rtoMs},{r.recvSet.length}"
+  s!"rate={r.sendRate},{r.maxSendRate},{tag},{tcp},{fmtOptN r.nofeedbackExp},{b2n r.nofeedbackIdle},{fmtOptN (r.rttS.map (·.toBits.toNat))},{fmtOptN r.rttMs},{fmtOptN r.rtoMs},{r.recvSet.length},{r.prevLossRate.toBits.toNat}"
 
 /-- What the endpoints do with a parsed frame on an active connection. -/
 def dispatch (s : HalfConn.State Float) (f : Frame) : R (HalfConn.State Float × String) :=
